@@ -1,8 +1,8 @@
 #!/verif/.venv/bin/python
 # Replay of a solver counterexample against the unmodified code (no shims).
-# property=C09 kernel=atomic label=atomic:delay_rest#1
+# property=C09 kernel=atomic label=atomic:target#1
 import sys
 sys.path[:0] = ['/repo' + "/pulser-core", '/repo' + "/pulser-simulation", "/verif"]
 from symx.replay import replay
-sys.exit(replay(check='checks.c09', kernel='atomic', shape={'device': 'virt_maxseq', 'prefix': 'p0', 'ops': ['add_l', 'delay_rest']},
-                assignment={'d0': 9, 'a0': '1/2', 'dl1': 7, 'buf#1.start': 0, 'buf#1.end': 3, 'buf#2.start': 0, 'buf#2.end': 0}, label='atomic:delay_rest#1'))
+sys.exit(replay(check='checks.c09', kernel='atomic', shape={'device': 'virt_maxseq', 'prefix': 'p1', 'ops': ['add_g', 'target']},
+                assignment={'pd0/k': 2, 'pd1/k': 982, 'buf#1.start': 0, 'buf#1.end': 0, 'buf#2.start': 0, 'buf#2.end': 1, 'd0': 1, 'a0': '4702873571728431/281474976710656', 'det0': 0, 'buf#5.start': 0, 'buf#5.end': 0, 'buf#6.start': 0, 'buf#6.end': 1}, label='atomic:target#1'))
